@@ -2,19 +2,20 @@
    Model: Model/Heap.v (object-granularity heap; every public operation is a heap program parametrised by the
    flags that tools/translate/purity_tr.py extracts from the current sources into Gen/Purity.v: src_flags).
    exec fl w c = one public call on the world w (caller heap + simulators + compilers + processors);
-   run_hist = a history of calls of ANY length.  hist_guard excludes exactly the calls of the open finding
+   run_hist = a history of calls of ANY length.  hist_guard excludes exactly the calls of the (meanwhile repaired) finding
    "caller's cbits stored by reference" (it is vacuous once initialize copies the list: f_sim_cbits_copy).
    The theorems are stated for EVERY flag record satisfying the named conditions; src_flags_ok is the generated
    obligation that the current sources satisfy all of them (it fails to compile when a defensive copy or reset
    disappears from the sources).
-   Full statement of the property's fourth clause that is NOT proved as one theorem over histories:
-     forall histories, forall calls i < j, the objects reachable from result j are disjoint from those reachable
-     from result i and from every caller object;
-   proved instead: per call, the result reaches -- to every depth -- only objects allocated by that call
-   (result_fresh: so none of the caller's objects and none of the results returned earlier), and no later call
-   changes any existing object, earlier results included (history_pure). *)
+   Stage 3: repeatability is proved for ALL modelled operations as structural equality of the two results
+   (history_repeatable: isomorphic trees with equal tokens = equal up to the renaming of the freshly allocated
+   locations), and clause 4 is ONE theorem over histories (results_unaliased: the objects reachable from the
+   results of different calls are pairwise disjoint and disjoint from everything reachable from the caller's
+   objects).  world_ok = no dangling references; call_ok / hist_ok = every object handed to a call exists.
+   The *_src theorems instantiate everything with the flags of the CURRENT sources, with no guard left. *)
 From Coq Require Import List Arith Bool.
-From QV Require Import Model.Heap Proofs.HeapBase Proofs.HeapPure Proofs.HeapFresh Proofs.HeapService Proofs.HeapInst Gen.Purity.
+From QV Require Import Model.Heap Proofs.HeapBase Proofs.HeapPure Proofs.HeapFresh Proofs.HeapClosed Proofs.HeapEquiv
+                       Proofs.HeapRepeat Proofs.HeapService Proofs.HeapInst Gen.Purity.
 Import ListNotations.
 
 (* generated obligation: the current sources contain every defensive copy / reset the theorems below rest on *)
@@ -93,10 +94,68 @@ Theorem queries_preserve_held :
 Proof. exact queries_preserve_held. Qed.
 Print Assumptions queries_preserve_held.
 
-(* repeatability, PARTIAL: proved for the calls whose results could depend on accumulated service state
-   (compile, processor queries); for calls returning heap structures equality of the two results follows
-   informally from history_pure + determinism of exec and is tied dynamically (repeat-equality oracle).
-   Full statement: forall c, exec w c = (w1, r1) -> exec w1 c = (w2, r2) -> snap (hp w1) r1 = snap (hp w2) r2. *)
+(* repeatability of EVERY modelled operation (run, run_statistics, resolve_gates, adjacent_gates, to_chain_structure,
+   reverse_circuit, add_circuit, schedule, Instruction, compile, load_circuit, the processor queries, ...): the same
+   call made twice in a row returns results that are equal as structures: iso h1 r1 h2 r2 = for every depth k the
+   trees snap k h1 r1 and snap k h2 r2 (tokens at the leaves, one node per object) are equal. *)
+Theorem history_repeatable :
+  forall fl w c w1 r1 w2 r2,
+  flags_pure fl = true -> flags_service fl = true ->
+  world_ok w -> call_ok w c -> guard fl w c = true ->
+  exec fl w c = Some (w1, r1) -> exec fl w1 c = Some (w2, r2) ->
+  iso (hp w1) r1 (hp w2) r2.
+Proof. exact history_repeatable_lemma. Qed.
+Print Assumptions history_repeatable.
+
+(* clause 4 as one theorem over histories of any length: in the final heap
+   (1) what a caller object reaches is what it reached before the history, all of it older than the history;
+   (2) no result reaches a caller object;  (3) results of different calls reach disjoint sets of objects. *)
+Theorem results_unaliased :
+  forall fl, flags_fresh fl = true ->
+  forall hist w w' rs, world_ok w -> hist_guard fl w hist = true -> hist_ok fl w hist ->
+  run_hist fl w hist = Some (w', rs) ->
+  (forall v m, val_ok (length (hp w)) v -> reach (hp w') v m -> reach (hp w) v m /\ m < length (hp w)) /\
+  (forall r m, In r rs -> reach (hp w') r m -> length (hp w) <= m) /\
+  (forall i j ri rj m, i < j -> nth_error rs i = Some ri -> nth_error rs j = Some rj ->
+                       reach (hp w') ri m -> reach (hp w') rj m -> False).
+Proof. exact results_unaliased_lemma. Qed.
+Print Assumptions results_unaliased.
+
+(* heaps stay free of dangling references, results exist, heaps only grow *)
+Theorem exec_keeps_closed :
+  forall fl w c w' r, world_ok w -> call_ok w c -> exec fl w c = Some (w', r) ->
+  world_ok w' /\ val_ok (length (hp w')) r /\ length (hp w) <= length (hp w').
+Proof. exact exec_closed. Qed.
+Print Assumptions exec_keeps_closed.
+
+(* the same for the flags of the current sources: no guard, no flag hypothesis *)
+Theorem src_cbits_copy : f_sim_cbits_copy src_flags = true.
+Proof. exact src_cbits_copy. Qed.
+Print Assumptions src_cbits_copy.
+
+Theorem history_pure_src :
+  forall hist w w' rs, hist_wf src_flags w hist -> run_hist src_flags w hist = Some (w', rs) ->
+  forall l, l < length (hp w) -> nth_error (hp w') l = nth_error (hp w) l.
+Proof. exact history_pure_src. Qed.
+Print Assumptions history_pure_src.
+
+Theorem results_unaliased_src :
+  forall hist w w' rs, world_ok w -> hist_ok src_flags w hist -> run_hist src_flags w hist = Some (w', rs) ->
+  (forall v m, val_ok (length (hp w)) v -> reach (hp w') v m -> reach (hp w) v m /\ m < length (hp w)) /\
+  (forall r m, In r rs -> reach (hp w') r m -> length (hp w) <= m) /\
+  (forall i j ri rj m, i < j -> nth_error rs i = Some ri -> nth_error rs j = Some rj ->
+                       reach (hp w') ri m -> reach (hp w') rj m -> False).
+Proof. exact results_unaliased_src. Qed.
+Print Assumptions results_unaliased_src.
+
+Theorem history_repeatable_src :
+  forall w c w1 r1 w2 r2, world_ok w -> call_ok w c ->
+  exec src_flags w c = Some (w1, r1) -> exec src_flags w1 c = Some (w2, r2) -> iso (hp w1) r1 (hp w2) r2.
+Proof. exact history_repeatable_src. Qed.
+Print Assumptions history_repeatable_src.
+
+(* the token-level special case proved in stage 2 (kept as a corollary-style statement with weaker hypotheses:
+   no well-formedness of the heap needed): a processor query repeated returns the same value *)
 Theorem history_repeatable_partial :
   forall fl w c w1 r1 w2 r2,
   (f_gnp_copy fl || f_pn_copy fl) = true -> f_pn_list_copy fl = true -> is_query c = true ->
@@ -187,6 +246,21 @@ Example result_fresh_example :
                guard good_flags ex_world (CSimStats 0 (Ref 10) 2) = true /\ call_wf ex_world (CSimStats 0 (Ref 10) 2).
 Proof. exact result_fresh_example. Qed.
 Print Assumptions result_fresh_example.
+
+Example ex_world_ok : world_ok ex_world.
+Proof. exact ex_world_ok. Qed.
+Print Assumptions ex_world_ok.
+
+Example ex_history_ok : hist_ok good_flags ex_world ex_history.
+Proof. exact ex_history_ok. Qed.
+Print Assumptions ex_history_ok.
+
+Example repeat_example :
+  exists w1 r1 w2 r2, exec good_flags ex_world (CReverse (Ref 9)) = Some (w1, r1) /\
+                      exec good_flags w1 (CReverse (Ref 9)) = Some (w2, r2) /\ r1 <> r2 /\
+                      snap FUEL (hp w1) r1 = snap FUEL (hp w2) r2 /\ call_ok ex_world (CReverse (Ref 9)).
+Proof. exact repeat_example. Qed.
+Print Assumptions repeat_example.
 
 (* the defensive copy inside Instruction is needed: without it the caller's gate is sorted in place *)
 Example instr_copy_needed :
